@@ -6,6 +6,7 @@ import (
 	"io"
 	"net"
 	"net/http"
+	"net/http/httptest"
 	"os"
 	"strings"
 	"syscall"
@@ -340,6 +341,69 @@ func init() {
 			st3.NOutcomes = int(st3.Execs)
 		}
 		// level 4: an origin connection that closes before any response byte — still exactly one contact per request
+		// what only a real upstream exchange carries: header fields sent as trailers (after the body), which net/http's
+		// reverse proxy hands on among the response headers — a Set-Cookie or Cache-Control arriving that way counts
+		if c.Want("real-proxy-trailers") && c.Shard == 2%c.NShards {
+			st := c.Stat("real-proxy-trailers", "enumeration")
+			cases := []struct {
+				path, trailer, value string
+				mayStore             bool
+			}{
+				{"/plain", "", "", true},
+				{"/cookie-in-trailer", "Set-Cookie", "sid=1", false},
+				{"/harmless-trailer", "X-Checksum", "abc", true},
+			}
+			st.Bounds = fmt.Sprintf("loopback origin answering max-age=60 with %d trailer variants (none, Set-Cookie, a harmless field) through pike's real proxy; each URL twice: the second request is a hit only where the statement allows storing", len(cases))
+			origin := httptest.NewUnstartedServer(http.HandlerFunc(func(w http.ResponseWriter, r *http.Request) {
+				w.Header().Set("Cache-Control", "max-age=60")
+				w.Header().Set("Content-Type", "text/plain")
+				for _, cs := range cases {
+					if cs.path == r.URL.Path && cs.trailer != "" {
+						w.Header().Set("Trailer", cs.trailer)
+						fmt.Fprintf(w, "page of %s", r.URL.Path)
+						w.(http.Flusher).Flush()
+						w.Header().Set(cs.trailer, cs.value)
+						return
+					}
+				}
+				fmt.Fprintf(w, "page of %s", r.URL.Path)
+			}))
+			origin.Config.SetKeepAlivesEnabled(false)
+			origin.Start()
+			rcfg := &config.PikeConfig{
+				Caches:    []config.CacheConfig{{Name: "c1", Size: 100, HitForPass: "5m"}},
+				Upstreams: []config.UpstreamConfig{{Name: "u", Servers: []config.UpstreamServerConfig{{Addr: origin.URL}}}},
+				Locations: []config.LocationConfig{{Name: "l", Upstream: "u"}},
+				Servers:   []config.ServerConfig{{Addr: "127.0.0.1:0", Locations: []string{"l"}, Cache: "c1"}},
+			}
+			env.Silence()
+			procEnv = nil
+			env.FreshAll()
+			_ = env.Apply(rcfg)
+			e := &env.Env{}
+			e.RebindServersOnly()
+			for _, cs := range cases {
+				r1 := e.Do(env.Req{URI: cs.path, Rid: "r1"})
+				r2 := e.Do(env.Req{URI: cs.path, Rid: "r2"})
+				st.Execs += 2
+				want := "page of " + cs.path
+				if r1.Status != 200 || r2.Status != 200 || string(r1.Body) != want || string(r2.Body) != want {
+					c.Violation("real-proxy-trailers", "response-altered", fmt.Sprintf("%s: answers %d %q / %d %q", cs.path, r1.Status, trunc(r1.Body), r2.Status, trunc(r2.Body)), nil, map[string]interface{}{"path": cs.path}, nil)
+					continue
+				}
+				if r2.XStatus == "hit" && !cs.mayStore {
+					c.Violation("real-proxy-trailers", "stored-unshareable", fmt.Sprintf("%s: the upstream sent %s: %s as a trailer; the response was stored and replayed as a hit", cs.path, cs.trailer, cs.value), nil, map[string]interface{}{"path": cs.path}, nil)
+				}
+				if cs.path == "/plain" && r2.XStatus != "hit" {
+					c.Violation("real-proxy-trailers", "harness-control-not-cached", fmt.Sprintf("the control URL was labelled %s / %s", r1.XStatus, r2.XStatus), nil, nil, nil)
+				}
+			}
+			env.FreshAll()
+			procEnv = nil
+			origin.Close()
+			st.States, st.Transitions, st.Nontrivial = st.Execs, st.Execs, st.Execs
+			st.NOutcomes = len(cases)
+		}
 		if c.Want("chain-conn-closed") {
 			st4 := c.Stat("chain-conn-closed", "enumeration")
 			st4.Bounds = "7 methods x {EOF, connection reset, refused} on the first origin call x {with, without body}"
